@@ -238,8 +238,9 @@ Qed.
    implicitly formatted records *)
 Theorem lf_records_content st f frames st' recs :
   lf_records st f frames = OK (st', recs) -> Inv st -> Inv_disj st -> regk_ok (skeys st) (l_reg f) ->
-  exists fh erecs rest,
-    recs = fh :: erecs ++ rest /\ lr_eflr fh = true /\ lr_type fh = 0 /\ (exists d, dec_set (lr_body fh) = Some d)
+  exists fhb erecs rest,
+    enc_fileheader {| on_origin := l_fh_origin f; on_copy := 0; on_name := l_ident f |} (l_seq f) (l_hid f) = OK fhb
+    /\ recs = {| lr_eflr := true; lr_type := 0; lr_body := fhb |} :: erecs ++ rest /\ (exists d, dec_set fhb = Some d)
     /\ Forall2 (set_rec st') (lf_sids f) erecs /\ Forall (fun r => lr_eflr r = false) rest.
 Proof.
   unfold lf_records. intros H Hi Hd Hr. bind_inv H. rename a into fh, H0 into Hfh.
@@ -249,8 +250,8 @@ Proof.
   assert (Hnd : NoDup (lf_sids f)) by (eapply NoDup_map_inv'; eapply lf_sets_distinct; exact Hr).
   rewrite <- lf_sids_spec in Hfold.
   destruct (fold_sets_content _ _ _ _ _ Hfold Hi Hd Hnd) as (rs & -> & Hall).
-  exists {| lr_eflr := true; lr_type := 0; lr_body := fh |}, rs, (nf ++ fd).
-  split; [reflexivity|]. split; [reflexivity|]. split; [reflexivity|]. split; [eapply fileheader_dec; exact Hfh|].
+  exists fh, rs, (nf ++ fd).
+  split; [exact Hfh|]. split; [reflexivity|]. split; [eapply fileheader_dec; exact Hfh|].
   split; [exact Hall|]. apply Forall_app. split.
   - clear -Hnf. revert nf Hnf. induction (l_nofmt f) as [|[obj p] l IH]; intros nf H; [inv H; constructor|].
     destruct obj; try discriminate. destruct (nth_error (b_items st') i); [|discriminate].
@@ -307,16 +308,23 @@ Proof.
 Qed.
 
 (* the records of one logical file, judged against a state S *)
-Definition lf_group (S : bstate) (sids : list nat) (g : list lrec) : Prop :=
-  exists fh erecs rest,
-    g = fh :: erecs ++ rest /\ lr_eflr fh = true /\ lr_type fh = 0 /\ (exists d, dec_set (lr_body fh) = Some d)
-    /\ Forall2 (set_rec S) sids erecs /\ Forall (fun r => lr_eflr r = false) rest.
+Definition lf_group (S : bstate) (f : lfile) (g : list lrec) : Prop :=
+  exists fhb erecs rest,
+    enc_fileheader {| on_origin := l_fh_origin f; on_copy := 0; on_name := l_ident f |} (l_seq f) (l_hid f) = OK fhb
+    /\ g = {| lr_eflr := true; lr_type := 0; lr_body := fhb |} :: erecs ++ rest /\ (exists d, dec_set fhb = Some d)
+    /\ Forall2 (set_rec S) (lf_sids f) erecs /\ Forall (fun r => lr_eflr r = false) rest.
 
-Lemma lf_group_ext S S' sids g :
-  b_sets S' = b_sets S -> (forall sid, In sid sids -> eset_of S' sid = eset_of S sid) -> lf_group S sids g -> lf_group S' sids g.
+Lemma lf_group_static S f f' g : lf_static f' = lf_static f -> lf_group S f g -> lf_group S f' g.
 Proof.
-  intros Hs He (fh & erecs & rest & -> & H1 & H2 & H3 & Hall & Hrest).
-  exists fh, erecs, rest. repeat split; try assumption.
+  unfold lf_static. intros E (fhb & erecs & rest & H1 & H2 & H3 & H4 & H5). injection E as E1 E2 E3 E4 E5 E6.
+  exists fhb, erecs, rest. unfold lf_sids. rewrite E1, E2, E3, E4, E5. repeat split; assumption.
+Qed.
+
+Lemma lf_group_ext S S' f g :
+  b_sets S' = b_sets S -> (forall sid, In sid (lf_sids f) -> eset_of S' sid = eset_of S sid) -> lf_group S f g -> lf_group S' f g.
+Proof.
+  intros Hs He (fh & erecs & rest & H0 & -> & H3 & Hall & Hrest).
+  exists fh, erecs, rest. repeat split; try assumption. revert He Hall. generalize (lf_sids f). intros sids He Hall.
   clear -Hs He Hall. induction Hall as [|sid r sids erecs Hr Hall IH]; [constructor|].
   constructor; [eapply set_rec_ext; [exact Hs | apply He; left; reflexivity | exact Hr]|].
   apply IH. intros s Hin. apply He. right. exact Hin.
@@ -345,7 +353,7 @@ Lemma records_all_content : forall l k s acc s' out,
   b_sets s' = b_sets s /\ b_lfs s' = b_lfs s
   /\ (forall sid, ~ In sid (later_sids s k) -> eset_of s' sid = eset_of s sid)
   /\ exists groups, out = acc ++ concat groups
-       /\ Forall2 (lf_group s') (map lf_sids (firstn (length l) (skipn k (b_lfs s)))) groups.
+       /\ Forall2 (lf_group s') (firstn (length l) (skipn k (b_lfs s))) groups.
 Proof.
   induction l as [|frs l IH]; intros k s acc s' out H Hi Hr Hd Hnd.
   - cbn in H. inv H. split; [reflexivity|]. split; [reflexivity|]. split; [intros; reflexivity|].
@@ -365,13 +373,16 @@ Proof.
     split; [congruence|]. split; [congruence|]. split.
     + intros sid Hni. rewrite Hls in Hni. rewrite He' by (rewrite Hls1; intros Hin; apply Hni; apply in_or_app; right; exact Hin).
       apply He1. intros Hin; apply Hni; apply in_or_app; left; exact Hin.
-    + destruct (lf_records_content _ _ _ _ _ E Hi Hd (lf_at_reg _ _ _ Hr El)) as (fh & erecs & rest & -> & G1 & G2 & G3 & G4 & G5).
-      exists ((fh :: erecs ++ rest) :: groups). cbn [concat]. rewrite <- app_assoc. split; [reflexivity|].
-      rewrite Esk. cbn [length firstn map]. rewrite Hl1 in Hall. constructor; [|exact Hall].
+    + destruct (lf_records_content _ _ _ _ _ E Hi Hd (lf_at_reg _ _ _ Hr El)) as (fh & erecs & rest & G0 & -> & G3 & G4 & G5).
+      exists (({| lr_eflr := true; lr_type := 0; lr_body := fh |} :: erecs ++ rest) :: groups). cbn [concat]. rewrite <- app_assoc. split; [reflexivity|].
+      rewrite Esk. cbn [length firstn]. rewrite Hl1 in Hall. constructor; [|exact Hall].
       apply (lf_group_ext s1 s'); [exact Hs' | | exists fh, erecs, rest; repeat split; assumption].
       intros sid Hin. apply He'. rewrite Hls1. intros Hin2.
       exact (Hdis _ Hin Hin2).
 Qed.
+
+Lemma cons_inj_ {A} (a b : A) l l' : a :: l = b :: l' -> a = b /\ l = l'.
+Proof. intros H. inversion H. auto. Qed.
 
 Lemma setup_all_len hc w : forall fs k s acc s' out, setup_all hc w k fs s acc = (s', OK out) -> length out = (length acc + length fs)%nat.
 Proof.
@@ -386,7 +397,7 @@ Proof. rewrite map_map. reflexivity. Qed.
 
 Lemma check_all_lfs_len hc : forall fs k s s', check_all hc k fs s = OK s' -> Inv s -> Inv_reg s -> length (b_lfs s') = length (b_lfs s).
 Proof.
-  intros fs k s s' H Hi Hr. destruct (check_all_keeps hc fs k s s' H Hi Hr) as (_ & _ & L & _).
+  intros fs k s s' H Hi Hr. pose proof (skeeps_regs _ _ (check_all_keeps hc fs k s s' H Hi Hr)) as L.
   rewrite <- (map_length l_reg (b_lfs s')), L, map_length. reflexivity.
 Qed.
 
@@ -402,7 +413,7 @@ Theorem write_content hc st w st' bs :
   NoDup (concat (map lf_sids (b_lfs st))) ->
   exists groups,
     write_file {| sul_seq := w_seq w; sul_vrl := w_vrl w; sul_id := w_ident w |} (concat groups) = OK bs
-    /\ Forall2 (lf_group st') (map lf_sids (b_lfs st)) groups
+    /\ Forall2 (lf_group st') (b_lfs st) groups
     /\ skeeps st st'.
 Proof.
   intros H Hi Hr Hd Hnd.
@@ -420,28 +431,106 @@ Proof.
   pose proof (skeeps_inv_reg _ _ K12 Hr) as Hr2.
   assert (Hd2 : Inv_disj st2) by (unfold Inv_disj; destruct K12 as (S & _); rewrite S; exact Hd).
   assert (Hsids : map lf_sids (b_lfs st2) = map lf_sids (b_lfs st)).
-  { rewrite !map_lf_sids. destruct K12 as (_ & _ & L & _). rewrite L. reflexivity. }
+  { rewrite !map_lf_sids. rewrite (skeeps_regs _ _ K12). reflexivity. }
   assert (Hlen2 : length (b_lfs st2) = length (b_lfs st1)).
-  { destruct K2 as (_ & _ & L & _). rewrite <- (map_length l_reg (b_lfs st2)), L, map_length. reflexivity. }
+  { pose proof (skeeps_regs _ _ K2) as L. rewrite <- (map_length l_reg (b_lfs st2)), L, map_length. reflexivity. }
   destruct (records_all 0 perlf st2 []) as [st3 r3] eqn:E3. destruct r3 as [recs|e]; [|inv H].
   injection H as <- H.
   destruct (records_all_content perlf 0%nat st2 [] st3 recs E3 Hi2 Hr2 Hd2) as (_ & _ & _ & groups & -> & Hall).
   { unfold later_sids. cbn [skipn]. rewrite Hsids. exact Hnd. }
   exists groups. cbn [app] in H. split; [exact H|]. split; [|exact K].
-  cbn [skipn] in Hall. rewrite Hlen, <- Hlen2, firstn_all, Hsids in Hall. exact Hall.
+  cbn [skipn] in Hall. rewrite Hlen, <- Hlen2, firstn_all in Hall.
+  destruct K12 as (_ & _ & L & _). clear -Hall L. revert groups Hall L. generalize (b_lfs st). generalize (b_lfs st2).
+  induction l as [|f2 l IH]; intros l0 groups Hall L; destruct l0 as [|f0 l0]; try discriminate; inversion Hall; subst; [constructor|].
+  cbn [map] in L. apply cons_inj_ in L. destruct L as [L0 L1]. constructor; [eapply lf_group_static; [symmetry; exact L0 | assumption] | eapply IH; eassumption].
 Qed.
 
 (* with one logical file the hypothesis holds by the registry invariant *)
 Corollary write_content_single hc st w st' bs f :
   write hc st w = (st', OK bs) -> Inv st -> Inv_reg st -> Inv_disj st -> b_lfs st = [f] ->
   exists g, write_file {| sul_seq := w_seq w; sul_vrl := w_vrl w; sul_id := w_ident w |} g = OK bs
-            /\ lf_group st' (lf_sids f) g /\ skeeps st st'.
+            /\ lf_group st' f g /\ skeeps st st'.
 Proof.
   intros H Hi Hr Hd Hf.
   assert (Hnd : NoDup (concat (map lf_sids (b_lfs st)))).
   { rewrite Hf. cbn [map concat]. rewrite app_nil_r. eapply NoDup_map_inv'. eapply lf_sets_distinct.
     destruct Hr as [_ Hl]. rewrite Hf in Hl. inversion Hl; subst. eassumption. }
   destruct (write_content _ _ _ _ _ H Hi Hr Hd Hnd) as (groups & Hw & Hall & K).
-  rewrite Hf in Hall. cbn [map] in Hall. inversion Hall as [|? g ? gs Hg Hrest]; subst. inversion Hrest; subst.
+  rewrite Hf in Hall. inversion Hall as [|? g ? gs Hg Hrest]; subst. inversion Hrest; subst.
   exists g. cbn [concat] in Hw. rewrite app_nil_r in Hw. split; [exact Hw|]. split; [exact Hg | exact K].
+Qed.
+
+(* ---------- creation order: logical files are only ever appended; every other operation works in place ---------- *)
+Lemma set_lf_len st l f : length (b_lfs (set_lf st l f)) = length (b_lfs st).
+Proof. unfold set_lf. cbn [b_lfs]. apply length_upd. Qed.
+
+Lemma gms_lfs st ty sn st1 sid : get_or_make_set st ty sn = (st1, sid) -> b_lfs st1 = b_lfs st.
+Proof. unfold get_or_make_set. cbv zeta. destruct (reg_find _ _ _); intros H; inv H; reflexivity. Qed.
+
+Lemma add_common_lfs_len hc st l ty name sn org dflt kw ds cast st' out :
+  add_common hc st l ty name sn org dflt kw ds cast = (st', out) -> length (b_lfs st') = length (b_lfs st).
+Proof.
+  unfold add_common. destruct (lf_at st l) as [f|]; [|intros H; inv H; reflexivity].
+  destruct (get_or_make_set st ty sn) as [st1 sid] eqn:Hg. intros H. pose proof (gms_lfs _ _ _ _ _ Hg) as E.
+  assert (L : length (b_lfs (set_lf st1 l (try_add_set st1 f ty sn sid))) = length (b_lfs st)) by (rewrite set_lf_len, E; reflexivity).
+  destruct name; try (inv H; exact L).
+  destruct (hc && negb (hc_string s)); [inv H; exact L|].
+  match type of H with context [match ?o with OK _ => _ | Err _ => _ end] => destruct o end; [|inv H; exact L].
+  match type of H with context [set_attributes ?a ?b ?c ?d] => destruct (set_attributes a b c d) as [it|] eqn:Hs end; [|inv H; exact L].
+  injection H as <- <-. exact L.
+Qed.
+
+Theorem step_lfs ps st o ps' st' out : step ps st o = (ps', st', out) ->
+  (exists h z, b_lfs st' = b_lfs st ++ [{| l_hid := h; l_seq := z; l_ident := [48]; l_fh_origin := None; l_reg := []; l_nofmt := []; l_data := [] |}]
+               /\ exists hh, o = OAddLF (RStr h hh) (RInt z))
+  \/ length (b_lfs st') = length (b_lfs st).
+Proof.
+  destruct o; unfold step.
+  - unfold add_lf. destruct hid; try solve [intros H; inv H; right; reflexivity]. destruct seq; try solve [intros H; inv H; right; reflexivity].
+    repeat match goal with |- context [if ?c then _ else _] => destruct c end; intros H; inv H; try (right; reflexivity).
+    left. exists s, z. split; [reflexivity | eexists; reflexivity].
+  - destruct (add_common (p_hc ps) st l ty name sn origin default_origin kw None None) as [s1 o1] eqn:E.
+    intros H; injection H as <- <- <-. right. eapply add_common_lfs_len; eassumption.
+  - destruct (add_origin (p_hc ps) st l name sn origin kw) as [s1 o1] eqn:E. intros H; injection H as <- <- <-. right.
+    unfold add_origin in E. destruct (lf_at st l) as [f|]; [|inv E; reflexivity].
+    destruct (get_or_make_set st T_ORIGIN sn) as [st1 sid] eqn:Hg. pose proof (gms_lfs _ _ _ _ _ Hg) as E0.
+    assert (L1 : length (b_lfs (set_lf st1 l (try_add_set st1 f T_ORIGIN sn sid))) = length (b_lfs st)) by (rewrite set_lf_len, E0; reflexivity).
+    match type of E with context [match ?c with Some _ => _ | None => _ end = _] => destruct c end; [inv E; exact L1|].
+    match type of E with context [add_common ?a ?b ?c ?d ?e0 ?f0 ?g ?h ?i ?j ?k] =>
+      destruct (add_common a b c d e0 f0 g h i j k) as [st3 out3] eqn:Ea end.
+    pose proof (add_common_lfs_len _ _ _ _ _ _ _ _ _ _ _ _ _ Ea) as L3. rewrite L1 in L3.
+    destruct out3 as [[iid|]|e3]; try (inv E; exact L3). inv E.
+    assert (L4 : length (b_lfs (origin_fsn_default (p_hc ps) st3 sid iid)) = length (b_lfs st)).
+    { unfold origin_fsn_default. destruct (fst (nth _ (i_attrs (item_at st3 iid)) (SPNone, None))); try exact L3.
+      destruct (p_hc ps); exact L3. }
+    unfold origin_backfill. match goal with |- context [if ?c then _ else _] => destruct c end; [|exact L4].
+    rewrite set_lf_len. exact L4.
+  - destruct (add_channel (p_hc ps) st l name sn origin kw bad_data data ds cast) as [s1 o1] eqn:E. intros H; injection H as <- <- <-. right.
+    unfold add_channel in E. destruct (lf_at st l) as [f|]; [|inv E; reflexivity].
+    destruct bad_data; [inv E; reflexivity|].
+    destruct (unique_dataset_name st f _ ds); [|inv E; reflexivity].
+    destruct cast as [[c|]|].
+    + destruct (add_common (p_hc ps) st l T_CHANNEL name sn origin default_origin kw (Some a) (Some c)) as [st3 out3] eqn:Ea.
+      pose proof (add_common_lfs_len _ _ _ _ _ _ _ _ _ _ _ _ _ Ea) as L3.
+      destruct out3 as [[iid|]|e3]; [destruct data; [destruct (lf_at st3 l)|]|..]; inv E; try rewrite set_lf_len; exact L3.
+    + destruct (get_or_make_set st T_CHANNEL sn) as [st1 sid] eqn:Hg. inv E. rewrite set_lf_len. rewrite (gms_lfs _ _ _ _ _ Hg). reflexivity.
+    + destruct (add_common (p_hc ps) st l T_CHANNEL name sn origin default_origin kw (Some a) None) as [st3 out3] eqn:Ea.
+      pose proof (add_common_lfs_len _ _ _ _ _ _ _ _ _ _ _ _ _ Ea) as L3.
+      destruct out3 as [[iid|]|e3]; [destruct data; [destruct (lf_at st3 l)|]|..]; inv E; try rewrite set_lf_len; exact L3.
+  - destruct (add_frame (p_hc ps) st l name sn origin channels chan_attr_idx kw) as [s1 o1] eqn:E. intros H; injection H as <- <- <-. right.
+    unfold add_frame in E. destruct channels; try (inv E; reflexivity). destruct l0; [inv E; reflexivity|].
+    match type of E with context [if ?c then _ else _] => destruct c end; [|inv E; reflexivity].
+    eapply add_common_lfs_len; eassumption.
+  - unfold assign. destruct (nth_error (b_items st) i) as [it|] eqn:En; [|intros H; inv H; right; reflexivity].
+    intros H. right. destruct units.
+    + destruct (set_units (p_hc ps) st it idx r) as [it'|] eqn:Es; inv H; reflexivity.
+    + destruct (set_value (p_hc ps) st it idx r) as [it'|] eqn:Es; inv H; reflexivity.
+  - unfold add_nofmt_data. destruct (lf_at st l); intros H; inv H; right; [apply set_lf_len | reflexivity].
+  - intros H; inv H; right; reflexivity.
+  - intros H; inv H; right; reflexivity.
+  - destruct (p_stack ps); intros H; inv H; right; reflexivity.
+  - unfold set_origin. destruct (nth_error (b_items st) i) as [it|] eqn:En; [|intros H; inv H; right; reflexivity].
+    intros H. right. destruct r; inv H; reflexivity.
+  - unfold set_header. destruct (lf_at st l); [|intros H; inv H; right; reflexivity].
+    destruct is_id, r; intros H; inv H; right; try reflexivity; apply set_lf_len.
 Qed.
